@@ -538,12 +538,23 @@ class Machine:
                 self.gen = self._coro()
             next(self.gen)
         else:
-            g = self.exec_block(self.body, {})
-            try:
-                next(g)
-                raise AssertionError("pause point in a non-coroutine body")
-            except StopIteration:
-                pass
+            for _pass in range(6):
+                before = dict(self.sig)
+                g = self.exec_block(self.body, {})
+                try:
+                    next(g)
+                    raise AssertionError("pause point in a non-coroutine body")
+                except StopIteration:
+                    pass
+                if kind != "comb":
+                    break
+                # a combinational process is re-activated by every signal it reads, its own included: run to the fixed point
+                self.end_step()
+                if self.sig == before:
+                    return dict(self.sig)
+                self.begin_step(inputs)
+            else:
+                raise Unspecified("combinational process does not settle")
         self.end_step()
         return dict(self.sig)
 
